@@ -49,6 +49,9 @@ CHECKS = {
     "C11": dict(cat="model_checking", ref="§4 C11", tech="TLC model checking of CloneEq with Ser/De (negative control: half_used not serialized) + observational trace monitor Trace_Pair over snapshot/restore schedules (bincode and JSON) derived from TLC's state graph",
                 text="Snapshots are taken at every sampled (index, half_used) state of IsaacRng/Isaac64Rng and after random histories/jumps of the 16 plain serializable types, restored through bincode and serde_json, and original, pre-snapshot clone and both restored generators are driven in lock-step across a refill; any divergence, failed deserialization or == false is rejected.",
                 note=TB + "; harness built with the serde features; seeds and histories are a corpus"),
+    "C17": dict(cat="model_checking", ref="§4 C17", tech="trace validation against a TLA+ non-interference specification (Trace_Debug): Debug text as an uninterpreted function of history / public read position (index, half_used from the API machine ApiImpl), learned and enforced by TLC",
+                text="{:?} and {:#?} of the eight state-hiding types are recorded after every operation of walks from TLC's API state graph and random walks, each under several seeds (or timer scripts); TLC rejects two different texts for one (kind, format, history) or one (kind, format, public read position), so any seed- or state-dependent content in the text is detected without fixing the text itself.",
+                note=TB + "; leakage is detected as dependence on seed/state across the seeds of the corpus (>= 5 per history)"),
 }
 
 NOT_YET = {}
